@@ -813,6 +813,10 @@ def u3_reject_before_add(C, rep, rid, which=("conflict", "expiry", "total")):
                         pl_ok = False
                 rep.ob(rid, ok and pl_ok, H.fn, "%s gate => fee_or_expiry_insufficient(configured policy)" % k, where=f.loc, how="0x201a + params.routing_policy",
                        detail="" if ok and pl_ok else "%s gate answers %s" % (k, [v[:3] for v in resp]))
+    if "conflict" in which:
+        # `trampoline != payment_state.trampoline` means what it says only if the comparison looks at every field
+        # (amount to deliver included - for amountless invoices it comes from the HTLC's own amount record)
+        _eq_compares_all_fields(F, rep, rid, "messages::TrampolineInfo")
     unknown = found.get("?", [])
     for f, kind, _e, _sbb in unknown:
         rep.ob(rid, False, H.fn, "unrecognised rejection", where=f.loc, detail="a fail request at %s is guarded by an unrecognised condition (%s)" % (f.loc, kind[1]))
@@ -833,6 +837,67 @@ def u3_reject_before_add(C, rep, rid, which=("conflict", "expiry", "total")):
             rep.ob(rid, ok, F.root_of(r["body"]), "readiness requires no fail request", where=r["call"].loc, how="ready send guarded by !%s" % flags,
                    detail="" if ok else "a set for which failure was requested can still be declared ready and paid")
     rep.anchor(rid, "ready send site", len(rd), 1)
+
+
+def _fields_read(b, adt):
+    out = set()
+
+    def pl(p):
+        for x in p.get("p", []):
+            if x["k"] == "field" and canon(x.get("o") or "") == adt:
+                out.add(x["n"])
+    for bi in sorted(b.reachable):
+        blk = b.blocks[bi]
+        for s in blk["s"]:
+            if s["k"] != "assign":
+                continue
+            rv = s["rv"]
+            if "pl" in rv:
+                pl(rv["pl"])
+            for key in ("op", "a", "b"):
+                if isinstance(rv.get(key), dict) and "pl" in rv[key]:
+                    pl(rv[key]["pl"])
+            for o in rv.get("ops", []) or []:
+                if isinstance(o, dict) and "pl" in o:
+                    pl(o["pl"])
+        t = blk["t"]
+        if t["k"] == "call":
+            for a in t["args"]:
+                if "pl" in a:
+                    pl(a["pl"])
+        if t["k"] == "switch" and "pl" in t.get("op", {}):
+            pl(t["op"]["pl"])
+    return out
+
+
+def _eq_compares_all_fields(F, rep, rid, adt):
+    name = "<%s as std::cmp::PartialEq>::eq" % adt
+    b = F.by_cdef.get(name)
+    if not rep.anchor(rid, "PartialEq::eq of %s" % adt.split("::")[-1], 1 if b is not None else 0, 1):
+        return
+    a = F.adts.get(adt)
+    allf = {f["n"] for f in a["variants"][0]["fields"]} if a and a.get("variants") else set()
+    derived = "Derive:PartialEq" in (b.span.get("mac") or [])
+    read = set()
+    for g in F.group(name):
+        read |= _fields_read(g, adt)
+    ok = derived or (allf and read >= allf)
+    missing = sorted(allf - read)
+    rep.ob(rid, ok, name, "equality of %s compares every field" % adt.split("::")[-1], where=loc(b.span), how="derived" if derived else "reads %s" % sorted(read),
+           detail="" if ok else "the hand-written equality of %s ignores %s: two HTLCs that differ there (e.g. in the amount to deliver declared for an amountless invoice) are treated as one consistent set" % (adt.split("::")[-1], ", ".join(missing) or "some fields"))
+    # nested local structs compared through their own PartialEq
+    if a and a.get("variants"):
+        for f in a["variants"][0]["fields"]:
+            t = canon(f["ty"])
+            if t in F.adts and t != adt and ("<%s as std::cmp::PartialEq>::eq" % t) in F.by_cdef:
+                nb = F.by_cdef["<%s as std::cmp::PartialEq>::eq" % t]
+                na = F.adts[t]
+                nall = {x["n"] for x in na["variants"][0]["fields"]} if na.get("variants") else set()
+                nder = "Derive:PartialEq" in (nb.span.get("mac") or [])
+                nread = _fields_read(nb, t)
+                nok = nder or (nall and nread >= nall)
+                rep.ob(rid, nok, nb.cdef, "equality of %s compares every field" % t.split("::")[-1], where=loc(nb.span), how="derived" if nder else "reads %s" % sorted(nread),
+                       detail="" if nok else "the hand-written equality of %s ignores %s" % (t.split("::")[-1], ", ".join(sorted(nall - nread))))
 
 
 def classify_gate(C, b, fbb):
